@@ -369,7 +369,7 @@ func buildC10(e *engine, p *rt.Package) {
 					if binary {
 						ct = "application/x-protobuf"
 					}
-					sources := []string{"plain_error", "sebuf_error", "handler_validation_error", "wrapped_sebuf_error"}
+					sources := []string{"plain_error", "sebuf_error", "handler_validation_error", "wrapped_sebuf_error", "wrapped_validation_error"}
 					if len(customs) > 0 {
 						sources = append(sources, "custom_error")
 						if !e.avoid("wrapped_custom_error") {
@@ -435,6 +435,7 @@ func buildC10(e *engine, p *rt.Package) {
 					var handlerErr error
 					wantStatus := 500
 					var wantBody proto.Message
+					wrappedVE := false
 					switch source {
 					case "plain_error":
 						msg := "boom: " + valgen.String(t, "errmsg")
@@ -451,6 +452,13 @@ func buildC10(e *engine, p *rt.Package) {
 					case "handler_validation_error":
 						ve := &sebufhttp.ValidationError{Violations: []*sebufhttp.FieldViolation{{Field: "user.email", Description: "taken"}, {Field: "age", Description: "too young"}}}
 						handlerErr, wantBody, wantStatus = ve, ve, 400
+					case "wrapped_validation_error":
+						// a ValidationError inside a wrapping error: status and body must tell the same story, either the
+						// validation failure (400 + violations) or a plain handler error (500 + message); judged after the call
+						ve := &sebufhttp.ValidationError{Violations: []*sebufhttp.FieldViolation{{Field: "user.email", Description: "taken"}}}
+						handlerErr = fmt.Errorf("while saving: %w", ve)
+						wantBody, wantStatus = ve, 400
+						wrappedVE = true
 					case "custom_error", "wrapped_custom_error":
 						ce := valgen.Message(t, customs[rapid.IntRange(0, len(customs)-1).Draw(t, "custom")], "custom", valgen.Opts{UnknownEnums: false})
 						wantBody = ce
@@ -554,6 +562,12 @@ func buildC10(e *engine, p *rt.Package) {
 						t.Fatalf("%s: the configured error hook was not called", desc)
 					}
 					// ---- server side: status, headers, body ----
+					if wrappedVE && hook.Present {
+						return // how a hook and a wrapped validation error combine is not documented
+					}
+					if wrappedVE && resp.status == 500 {
+						wantStatus, wantBody = 500, &sebufhttp.Error{Message: handlerErr.Error()}
+					}
 					expStatus := wantStatus
 					if hook.Present && hook.Status != 0 {
 						expStatus = hook.Status
